@@ -38,7 +38,8 @@ META = {
              " Round 14: NaN voxels in a third of the float volumes."
              " Round 16: sub-check unsupported_volume (1-, 2-, 5-, 6-D files)."
              " Round 17: volume-to-precomputed re-run on the existing dataset with an updated volume, compared with a fresh conversion."
-             " Round 18: options written into the description file instead of flags."),
+             " Round 18: options written into the description file instead of flags."
+             " Round 19: re-encoding into a pyramid with fewer scales."),
     "trusted_base": ["nibabel (input files)", "vlib/datasets.read_scale"],
     "assumptions": ["RGB inputs and --sharding are outside the all-in-one "
                     "command's options: sharded programs only take part in "
@@ -374,13 +375,30 @@ def check_case(ctx, case, mode="inproc"):
                     "--encoding", case["convert"]]
             if case["type"]:
                 args += ["--type", case["type"]]
+            keep = len(levels2)
+            if keep >= 2 and case["seed"] % 4 == 3:
+                # only the finest scales are re-encoded: the destination
+                # pyramid is generated with a smaller --max-scales
+                keep -= 1
+                args += ["--max-scales", str(keep)]
+                ctx.count("reencoded_with_fewer_scales")
             must("gsi", args, "re-encoding")
-            must("convert", [sp(p2), sp(p3)] + common_opts(case),
-                 "re-encoding")
-            info3, levels3 = read_dataset(ctx, p3, "convert-chunks output")
-            if len(levels3) != len(levels2):
-                ctx.fail("re-encoded dataset has %d scales, source %d" % (
-                    len(levels3), len(levels2)))
+            with open(os.path.join(p3, "info")) as f:
+                keys3 = [s_["key"] for s_ in json.load(f)["scales"]]
+            keys2 = [s_["key"] for s_ in info2["scales"]]
+            if keys3 != keys2[:len(keys3)]:
+                # (a shorter pyramid may name its scales in another unit:
+                # then it is not a description of the source's scales)
+                ctx.count("shorter_pyramid_has_other_keys")
+                levels3 = []
+            else:
+                must("convert", [sp(p2), sp(p3)] + common_opts(case),
+                     "re-encoding")
+                info3, levels3 = read_dataset(ctx, p3,
+                                              "convert-chunks output")
+                if len(levels3) != keep:
+                    ctx.fail("re-encoded dataset has %d scales, expected %d"
+                             % (len(levels3), keep))
             for i, (a, b) in enumerate(zip(levels2, levels3)):
                 if not np.array_equal(a.astype(b.dtype), b,
                                       equal_nan=b.dtype.kind == "f"):
